@@ -326,7 +326,7 @@ func RunCheck(o CheckOptions) int {
 			cmd := exec.Command(o.Exe, "worker", "-prop", o.Property, "-tier", o.Tier, "-seed", strconv.FormatUint(o.Seed, 10),
 				"-lo", strconv.Itoa(k), "-hi", strconv.Itoa(runs), "-stride", strconv.Itoa(workers),
 				"-budget", strconv.Itoa(int(budget.Seconds())), "-out", outPath, "-bitmap", bmPath)
-			cmd.Env = append(os.Environ(), "GOMAXPROCS=2")
+			cmd.Env = append(os.Environ(), "GOMAXPROCS=1")
 			var stderr strings.Builder
 			cmd.Stderr = &stderr
 			cmd.Stdout = &stderr
